@@ -218,8 +218,11 @@ Definition addpath_any (caps : list cap) (f bit : N) : bool :=
                     | _ => false
                     end) caps.
 
+(* PeerFsm::process: send-max entries of the families whose add-path send
+   direction is in force in PeerCodec::negotiate(local_cap, remote_capabilities)
+   (before the repair of finding C16-2: addpath_any on both lists) *)
 Definition effective_max (smax : list (N * N)) (lcap rcap : list cap) : list (N * N) :=
-  filter (fun fv => addpath_any lcap (fst fv) 2 && addpath_any rcap (fst fv) 1) smax.
+  filter (fun fv => match neg_family lcap rcap (fst fv) with Some (_, true) => true | _ => false end) smax.
 
 Definition is_entered_oc (o : output) : bool :=
   match o with StateChanged OpenConfirm => true | _ => false end.
